@@ -62,13 +62,15 @@ def sh(cmd, timeout, cwd=None, env=None):
 # --------------------------------------------------------------------------------------
 
 class Lock:
-    def __init__(self, name):
+    """exclusive for builds of coq/, shared for everything that only reads the compiled files"""
+    def __init__(self, name, shared=False):
         os.makedirs(BUILD, exist_ok=True)
         self.path = os.path.join(BUILD, name + ".lock")
+        self.shared = shared
 
     def __enter__(self):
-        self.f = open(self.path, "w")
-        fcntl.flock(self.f, fcntl.LOCK_EX)
+        self.f = open(self.path, "a")
+        fcntl.flock(self.f, fcntl.LOCK_SH if self.shared else fcntl.LOCK_EX)
         return self
 
     def __exit__(self, *a):
@@ -89,8 +91,8 @@ def coq_build(clean=False):
         if not ok:
             return False, "gen_tables failed:\n" + out
         log = out
-        if clean:
-            sh("make -f Makefile clean >/dev/null 2>&1; rm -f Makefile Makefile.conf .Makefile.d", 120, cwd=COQ)
+        # (a from-clean rebuild is done by the thorough tier in a private copy, see thorough_rebuild: compiled files in
+        #  coq/ are shared with checks that may be running concurrently and are never deleted here)
         if not os.path.exists(os.path.join(COQ, "Makefile")) or \
                 os.path.getmtime(os.path.join(COQ, "_CoqProject")) > os.path.getmtime(os.path.join(COQ, "Makefile")):
             rc, o = sh("coq_makefile -f _CoqProject -o Makefile", 60, cwd=COQ)
@@ -114,7 +116,8 @@ def prop_status(pid, thorough=False):
     src = os.path.join(COQ, "props", pid + ".v")
     text = open(src).read()
     names = re.findall(r"^(?:Theorem|Corollary)\s+(\w+)", text, re.M)
-    rc, out = sh("coqc -Q . GS props/%s.v" % pid, 1200, cwd=COQ)
+    with Lock("coqbuild", shared=True):
+        rc, out = sh("mkdir -p %s && coqc -Q . GS -o %s props/%s.v" % (os.path.join(BUILD, "propsout"), os.path.join(BUILD, "propsout", "%s.vo" % pid), pid), 1200, cwd=COQ)
     axioms = {}
     # Print Assumptions output: either "Closed under the global context" or "Axioms:\n name : type ..."
     blocks = re.split(r"(?=Closed under the global context|Axioms:)", out)
@@ -130,10 +133,28 @@ def prop_status(pid, thorough=False):
                axioms=axioms, ok=ok, log=out[-3000:],
                checker_cmd="cd /verif/coq && make (coq_makefile, full .vo) && coqc -Q . GS props/%s.v" % pid)
     if thorough and ok:
-        rc3, o3 = sh("coqchk -silent -o -Q . GS GS.props.%s 2>&1 | tail -40" % pid, 3000, cwd=COQ)
+        res.update(thorough_rebuild(pid))
+        res["checker_cmd"] += " && " + res["checker_extra"]
+        if not (res.get("clean_build_ok") and res.get("coqchk_ok")):
+            res["ok"] = False
+            res["discharged"] = 0
+            res["log"] += "\nTHOROUGH: from-clean build / coqchk failed:\n" + res.get("clean_build_tail", "") + res.get("coqchk", "")
+    return res
+
+
+def thorough_rebuild(pid):
+    """From-clean full .vo build of the whole development in a private copy, then coqchk -o on the property file."""
+    d = os.path.join(BUILD, "thorough_" + pid)
+    sh("rm -rf %s && mkdir -p %s && cd %s && cp --parents _CoqProject gen/*.v model/*.v proofs/*.v props/*.v %s/" % (d, d, COQ, d), 120)
+    rc1, o1 = sh("coq_makefile -f _CoqProject -o Makefile && make -j16 2>&1 | tail -15", 3000, cwd=d)
+    built = os.path.exists(os.path.join(d, "props", pid + ".vo"))
+    res = dict(clean_build_ok=built, clean_build_tail=o1[-1200:])
+    if built:
+        rc3, o3 = sh("coqchk -silent -o -Q . GS GS.props.%s 2>&1 | tail -40" % pid, 3000, cwd=d)
         res["coqchk"] = o3[-2500:]
         res["coqchk_ok"] = ("Modules were successfully checked" in o3) or rc3 == 0
-        res["checker_cmd"] += " && coqchk -o -Q . GS GS.props.%s" % pid
+    res["checker_extra"] = "from-clean make of a private copy (build/thorough_%s) && coqchk -o -Q . GS GS.props.%s" % (pid, pid)
+    sh("rm -rf %s" % d, 120)
     return res
 
 
@@ -150,7 +171,8 @@ def coq_eval(pid, name, imports, body, timeout=900):
         f.write(imports + "\n")
         f.write("Set Printing Width 2000000.\nSet Printing Depth 100000000.\n")
         f.write(body)
-    rc, out = sh("ulimit -s unlimited 2>/dev/null; coqc -Q %s GS -Q %s Cases_%s %s" % (COQ, d, pid, path), timeout, cwd=d)
+    with Lock("coqbuild", shared=True):
+        rc, out = sh("ulimit -s unlimited 2>/dev/null; coqc -Q %s GS -Q %s Cases_%s %s" % (COQ, d, pid, path), timeout, cwd=d)
     return rc, out
 
 
@@ -416,7 +438,7 @@ def standard_proof_phase(run, pid):
     """Steps 1-2 shared by all checks. Returns the proof status dict (ok False when broken)."""
     if os.environ.get("VERIF_DEV") == "1":   # development only: harness without the proof phase
         return dict(obligations=0, discharged=0, theorems=[], axioms={}, ok=True, log="", checker_cmd="(dev)")
-    ok, log = coq_build(clean=run.thorough and os.environ.get("VERIF_NO_CLEAN") != "1")
+    ok, log = coq_build()
     if not ok:
         run.log("Coq build is not clean:\n" + log[-2500:])
     st = prop_status(pid, thorough=run.thorough)
